@@ -116,7 +116,7 @@ def run(s):
                     how = hows[idx % 3]
                     for strict in (True, False):
                         judge_collection(s, docs, how, strict, tmpdir, 'subset' + ('+end' if with_end else ''))
-        n_long = 150 if q else 4000
+        n_long = 400 if q else 15000
         for c in range(n_long):
             if not s.mine(c):
                 continue
